@@ -551,7 +551,12 @@ func (rp *report) finish(wall time.Duration) int {
 		},
 		Assumptions: assumptionsFor(o.Property),
 	}
+	// development runs (a subset of the harnesses, or without native replays) do not replace the
+	// evidence of the registered check: theirs goes next to the counterexamples
 	evDir := filepath.Join(verifRoot(), "evidence")
+	if o.Only != "" || o.NoReplay || o.Trace {
+		evDir = rp.outDir
+	}
 	os.MkdirAll(evDir, 0o755)
 	data, _ := json.MarshalIndent(ev, "", " ")
 	os.WriteFile(filepath.Join(evDir, o.Property+".json"), data, 0o644)
